@@ -391,6 +391,7 @@ func c12Flatten(r *R) {
 	if thorough {
 		depth, leaves = 3, 5
 	}
+	c12FlattenDeep(r)
 	for _, n := range nestings(depth, leaves, true) {
 		var got []int
 		var err error
@@ -411,8 +412,69 @@ func c12Flatten(r *R) {
 	}
 }
 
+// c12FlattenDeep: nestings far deeper than the grammar above reaches. Every "comb" of depth d <= D:
+// each level is []any{[leaf,] child [, leaf]} with the same one of four shapes at every level, or with
+// two children at one level k and one child elsewhere; leaves are numbered left to right.
+func c12FlattenDeep(r *R) {
+	D := 24
+	if thorough {
+		D = 64
+	}
+	n := 0
+	for d := 1; d <= D; d++ {
+		for shape := 0; shape < 4; shape++ {
+			for fork := 0; fork <= d; fork += 1 + d/6 { // level with two children (0 = none)
+				next := 0
+				var build func(level int) any
+				build = func(level int) any {
+					if level == d {
+						next++
+						return []int{next - 1, next - 1 + 1000}[:1]
+					}
+					var out []any
+					if shape&1 != 0 {
+						out = append(out, next)
+						next++
+					}
+					out = append(out, build(level+1))
+					if fork != 0 && level == fork-1 {
+						out = append(out, build(level+1))
+					}
+					if shape&2 != 0 {
+						out = append(out, next)
+						next++
+					}
+					return out
+				}
+				v := build(0)
+				want := make([]int, next)
+				for i := range want {
+					want[i] = i
+				}
+				var got []int
+				var err error
+				p, msg := enum.Try(func() { got, err = gogu.Flatten[int](v) })
+				r.Eval("Flatten")
+				n++
+				wit := fmt.Sprintf("Flatten of a nesting %d levels deep (shape %d, two children at level %d, %d leaves)", d, shape, fork, next)
+				switch {
+				case p:
+					r.Bad("Flatten/panic/deep-nesting", wit, "panicked: %s", msg)
+				case err != nil || !eqSlice(got, want):
+					r.Bad("Flatten/not-leaves-left-to-right/deep-nesting", wit, "got (%v,%v), want 0..%d", got, err, next-1)
+				}
+				if u, err := gogu.Union[int](v); err != nil || !eqSlice(u, want) {
+					r.Bad("Union/wrong/deep-nesting", wit, "Union = (%v,%v), want 0..%d", u, err, next-1)
+				}
+			}
+		}
+	}
+	r.Set("deep_nestings", n)
+}
+
 func c12ReverseStr(r *R) {
-	for _, s := range enum.Strings([]string{"a", "é", "b", "日"}, 4) {
+	// runes of 1, 2, 3 and 4 bytes, incl. U+FFFD (a valid rune that decoders also use as their error value)
+	for _, s := range enum.Strings([]string{"a", "é", "b", "日", "\uFFFD", "😀"}, 4) {
 		got := gogu.ReverseStr(s)
 		r.Eval("ReverseStr")
 		rs := []rune(s)
